@@ -3,6 +3,7 @@ mod explore;
 mod lex;
 mod props;
 mod report;
+mod sqlite;
 mod util;
 
 use report::Report;
@@ -39,6 +40,7 @@ fn main() {
         usage();
     }
     util::quiet_panics();
+    sqlite::init();
     let Some(entry) = props::lookup(&prop) else {
         eprintln!("unknown or unbuilt property {prop}");
         std::process::exit(2)
